@@ -2,8 +2,9 @@
    ONLY statements: each theorem is closed by `exact` of a lemma proved elsewhere and followed by Print Assumptions. *)
 From Coq Require Import ZArith NArith List Bool Lia Permutation.
 Import ListNotations.
-Require Import Base Strings Builtins Codec Interp Machine Spec RunG Bits Utf Utf16.
+Require Import Base Strings Builtins Codec Interp Machine Spec RunG Bits Float Refine2 Utf Utf16 StrCodec.
 Open Scope Z_scope.
+Import Codec.      (* enc / dec below are the integer codec's *)
 Theorem le_roundtrip  :
   forall w n, 0 <= n < P w -> le_value (le_bytes w n) = n.
 Proof. exact (Codec.le_roundtrip ). Qed.
@@ -70,6 +71,55 @@ Theorem codec_body_decodes (rec : list positive -> heap -> world -> task -> out)
   DoneG h wd (inl (VInt (dec (scheme =? 2) (match big with Some true => true | _ => false end) bs))) 0.
 Proof. exact (Bits.codec_body_decodes rec scheme w big sp bs ip h wd). Qed.
 Print Assumptions codec_body_decodes.
+
+(* STRINGS inside the evaluator: the converter of scheme 0 on an evaluated string / byte string IS the RFC encoder / strict decoder below *)
+Theorem utf8_encodes (rec : list positive -> heap -> world -> task -> out) sp s ip h w :
+  str_ok s -> runG rec value ip h w (codec_body 0 1 None sp [VStr s]) = DoneG h w (inl (VBytes (ns (utf8_encode (zs s))))) 0.
+Proof. exact (StrCodec.utf8_encodes rec sp s ip h w). Qed.
+Print Assumptions utf8_encodes.
+
+Theorem utf16_encodes (rec : list positive -> heap -> world -> task -> out) sp s big ip h w :
+  str_ok s ->
+  runG rec value ip h w (codec_body 0 2 big sp [VStr s]) = DoneG h w (inl (VBytes (ns (match big with None => utf16_encode_bom (zs s) | Some b => utf16_encode b (zs s) end)))) 0.
+Proof. exact (StrCodec.utf16_encodes rec sp s big ip h w). Qed.
+Print Assumptions utf16_encodes.
+
+Theorem utf32_encodes (rec : list positive -> heap -> world -> task -> out) sp s big ip h w :
+  str_ok s ->
+  runG rec value ip h w (codec_body 0 4 big sp [VStr s]) = DoneG h w (inl (VBytes (ns (match big with None => utf32_encode_bom (zs s) | Some b => utf32_encode b (zs s) end)))) 0.
+Proof. exact (StrCodec.utf32_encodes rec sp s big ip h w). Qed.
+Print Assumptions utf32_encodes.
+
+(* a surrogate or a value above U+10FFFF has no encoding: value error *)
+Theorem non_scalar_rejected (rec : list positive -> heap -> world -> task -> out) sp s width big ip h w :
+  forallb scalarb (zs s) = false -> runG rec value ip h w (codec_body 0 width big sp [VStr s]) = DoneG h w (inr (mkerr c_value sp)) 0.
+Proof. exact (StrCodec.non_scalar_rejected rec sp s width big ip h w). Qed.
+Print Assumptions non_scalar_rejected.
+
+Theorem utf8_decodes (rec : list positive -> heap -> world -> task -> out) sp b ip h w :
+  runG rec value ip h w (codec_body 0 1 None sp [VBytes b]) =
+  match utf8_decode (zs b) with Some cs => DoneG h w (inl (VStr (ns cs))) 0 | None => DoneG h w (inr (mkerr c_value sp)) 0 end.
+Proof. exact (StrCodec.utf8_decodes rec sp b ip h w). Qed.
+Print Assumptions utf8_decodes.
+
+Theorem utf16_decodes (rec : list positive -> heap -> world -> task -> out) sp b big ip h w :
+  runG rec value ip h w (codec_body 0 2 big sp [VBytes b]) =
+  match (match big with None => utf16_decode_bom (zs b) | Some o => utf16_decode o (zs b) end) with Some cs => DoneG h w (inl (VStr (ns cs))) 0 | None => DoneG h w (inr (mkerr c_value sp)) 0 end.
+Proof. exact (StrCodec.utf16_decodes rec sp b big ip h w). Qed.
+Print Assumptions utf16_decodes.
+
+Theorem utf32_decodes (rec : list positive -> heap -> world -> task -> out) sp b big ip h w :
+  runG rec value ip h w (codec_body 0 4 big sp [VBytes b]) =
+  match (match big with None => utf32_decode_bom (zs b) | Some o => utf32_decode o (zs b) end) with Some cs => DoneG h w (inl (VStr (ns cs))) 0 | None => DoneG h w (inr (mkerr c_value sp)) 0 end.
+Proof. exact (StrCodec.utf32_decodes rec sp b big ip h w). Qed.
+Print Assumptions utf32_decodes.
+
+(* decoding what the converter encoded gives the string back, for every string of scalar values *)
+Theorem utf8_roundtrip_in_the_evaluator (rec : list positive -> heap -> world -> task -> out) sp s ip h w :
+  str_ok s ->
+  runG rec value ip h w (codec_body 0 1 None sp [VBytes (ns (utf8_encode (zs s)))]) = DoneG h w (inl (VStr s)) 0.
+Proof. exact (StrCodec.utf8_roundtrip_in_the_evaluator rec sp s ip h w). Qed.
+Print Assumptions utf8_roundtrip_in_the_evaluator.
 
 (* UTF-8 as defined by RFC 3629 (encoder + STRICT decoder written independently of any codec): decoding the encoding of any string of scalar values gives the string back *)
 Theorem utf8_roundtrip  :
